@@ -212,7 +212,7 @@ def run_case(case):
             span = max(values.values()) - min(values.values())
             if target not in values:
                 viol.append(('reference-level-not-on-curve', where))
-            elif abs(values[target]) > 1e-9 * span:
+            elif not abs(values[target]) <= 1e-9 * span:
                 zero = min(values, key=lambda n: abs(values[n]))
                 viol.append((
                     'origin-at-wrong-level:' + curve,
@@ -223,7 +223,7 @@ def run_case(case):
                 # the view must agree with the tables at that level
                 near = [v for z, v in view
                         if abs(z - target * step) < step / 4]
-                if len(near) != 1 or abs(near[0]) > 1e-9 * span:
+                if len(near) != 1 or not abs(near[0]) <= 1e-9 * span:
                     viol.append(('view-disagrees', '%s: view rows %r'
                                  % (where, near)))
     else:
